@@ -130,7 +130,7 @@ class Report:
                 elif st == "discharged":
                     h["discharged"] += 1
                 else:
-                    undecided.append(ob)
+                    h["undecided"] = h.get("undecided", 0) + 1  # inside a case already known to be violated
                 continue
             counted += 1
             if st == "discharged":
@@ -141,7 +141,8 @@ class Report:
             else:
                 undecided.append(ob)
         # replay violations
-        os.makedirs(os.path.join(VERIF, "replays", pid), exist_ok=True)
+        RD = os.environ.get("PYVC_REPLAY_DIR", os.path.join(VERIF, "replays"))
+        os.makedirs(os.path.join(RD, pid), exist_ok=True)
         vio_records = []
         seen_replay = {}
         todo = []
@@ -163,7 +164,7 @@ class Report:
             native = seen_replay.get(key) if rp else None
             if rp and native is None:
                 native = {"reproduced": False, "note": "replay budget (24 native replays per run) exhausted; run ./check %s --replay <this file>" % pid}
-            path = os.path.join(VERIF, "replays", pid, safe(ob["name"]) + ".json")
+            path = os.path.join(RD, pid, safe(ob["name"]) + ".json")
             rec = {
                 "property": pid,
                 "obligation": ob["name"],
@@ -232,10 +233,22 @@ class Report:
             samples.append({k: ob.get(k) for k in ("name", "kind", "status", "ms", "smt_size", "backend", "detail")})
         funcs = []
         seenf = set()
+        byname = {}
         for f in self.functions:
             if f["function"] in seenf:
+                g = byname[f["function"]]
+                for k in ("paths", "solver_s", "solver_calls", "wall_s"):
+                    if k in f and k in g:
+                        g[k] = round(g[k] + f[k], 3)
+                for k in ("inlined", "callee_contracts_used"):
+                    if k in f and k in g:
+                        g[k] = sorted(set(g[k]) | set(f[k]))
+                for k in ("covers", "invariant_instances_assumed"):
+                    if isinstance(f.get(k), dict) and isinstance(g.get(k), dict):
+                        g[k].update(f[k])
                 continue
             seenf.add(f["function"])
+            byname[f["function"]] = f
             funcs.append(f)
         cov = {
             "obligations": counted,
